@@ -284,6 +284,42 @@ def k7(ctx):
                   'is used' % inst(f),
                   '%s: the 2-or-3 length test (std::runtime_error) is missing or comes after the '
                   'first element read (validations: %s)' % (inst(f), vals), f.loc)
+        # the entries element is an arbitrary iterable: every site converts it with tuple(...)
+        # before counting or indexing it, and uses the raw object for nothing but the None test
+        if reads_entries:
+            raw_names = {k for k, v in desc.w.alias.items() if v == 'OUT2' and '.' not in k}
+            parent = enclosing_map(f.body)
+            raw_uses = []
+            nuse = 0
+            for n in f.body.walk():
+                if n.kind != 'DeclRefExpr' or (n.ref or {}).get('name') not in raw_names:
+                    continue
+                nuse += 1
+                p = parent.get(id(n))
+                while p is not None and p.kind in ('MemberExpr', 'ParenExpr'):
+                    q = parent.get(id(p))
+                    if q is not None and q.kind == 'CXXMemberCallExpr' and q.callee_name() == 'is_none':
+                        p = None
+                        break
+                    p = q
+                if p is None:
+                    continue        # <x>.is_none()
+                if p.kind in CALL_KINDS and p.callee_name() in ('thread_safe_cast', 'cast') and \
+                        'tuple' in (p.type or ''):
+                    continue        # tuple(<x>)
+                if p.kind == 'CXXOperatorCallExpr' and p.callee_name() == 'operator=' and \
+                        len(p.kids) > 1 and p.kids[1] is n:
+                    continue        # <x> = ...
+                if p.kind in CTOR_KINDS and 'scoped_critical_section' in (p.type or ''):
+                    continue        # lock guard over the object
+                raw_uses.append((n, p))
+            ctx.check(site + '/entries-converted', nuse > 0 and not raw_uses,
+                      '%s: the entries element is only tested for None and converted with '
+                      'tuple(...) (any iterable is accepted, as at the sibling sites)' % inst(f),
+                      '%s: the entries element is used as it came from the flatten function (%s): an '
+                      'iterable that the sibling traversals accept through tuple(...) is treated '
+                      'differently here' % (inst(f), raw_uses[0][1].text(4)[:80] if raw_uses else 'no use found'),
+                      raw_uses[0][0].loc if raw_uses else f.loc)
         ctx.check(site + '/entries-count', ent_ok,
                   '%s: %s' % (inst(f), 'entries count is compared with the number of children '
                               '(RuntimeError)' if reads_entries else 'does not read the entries element'),
